@@ -24,6 +24,8 @@ import z3
 Z3_TIMEOUT_MS = int(os.environ.get("VERIF_Z3_TIMEOUT_MS", "20000"))
 CVC5_TIMEOUT_MS = int(os.environ.get("VERIF_CVC5_TIMEOUT_MS", "20000"))
 Z3_FAST_MS = int(os.environ.get("VERIF_Z3_FAST_MS", "1500"))
+ITE_SPLIT_LEAVES = int(os.environ.get("VERIF_ITE_SPLIT_LEAVES", "4000"))
+ITE_SPLIT_DEPTH = int(os.environ.get("VERIF_ITE_SPLIT_DEPTH", "400"))
 MAX_PATHS = int(os.environ.get("VERIF_MAX_PATHS", "4096"))
 
 
@@ -664,6 +666,13 @@ def ite(c, a, b):
     cz = zbool(c)
     if a is b:
         return a
+    cc = _CTX[0]
+    if cc is not None and cc.prune_ite:
+        r = cc.truth(cz)
+        if r is True:
+            return a
+        if r is False:
+            return b
     if isinstance(a, (SymBool, bool, z3.BoolRef)) and isinstance(b, (SymBool, bool, z3.BoolRef)):
         return SymBool.wrap(z3.If(cz, zbool(a), zbool(b)))
     pa, pb = _num_parts(a), _num_parts(b)
@@ -797,6 +806,9 @@ class Ctx:
         self.uf_apps = {}
         self.divisors = []
         self.abstracted = False
+        self.prune_ite = False
+        self.scoped = []
+        self._truth_cache = {}
 
     # -- names -------------------------------------------------------------------------
     def fresh_name(self, base):
@@ -835,8 +847,25 @@ class Ctx:
                 self.assume(fact, f"axiom:{name}")
 
     # -- decisions ---------------------------------------------------------------------
+    def scope(self, *conds):
+        """context manager: temporary hypotheses (case split).  Facts assumed inside stay global."""
+        import contextlib
+
+        @contextlib.contextmanager
+        def cm():
+            n = len(self.scoped)
+            self.scoped.extend(zbool(x) for x in conds)
+            try:
+                yield
+            finally:
+                del self.scoped[n:]
+
+        return cm()
+
     def _check(self, *extra):
         self.solver.push()
+        for e in self.scoped:
+            self.solver.add(e)
         for e in extra:
             self.solver.add(e)
         r = self.solver.check()
@@ -878,6 +907,26 @@ class Ctx:
         self._decide_cache[key] = (z, res)
         return res
 
+    def truth(self, z):
+        """True / False if z is decided by assumptions+path, else None (never forks)."""
+        z = _simp(z)
+        if z3.is_true(z):
+            return True
+        if z3.is_false(z):
+            return False
+        k = (z.get_id(), len(self.assumptions), len(self.pathcond), tuple(x.get_id() for x in self.scoped))
+        hit = self._truth_cache.get(k)
+        if hit is not None:
+            return hit[1]
+        if self._check(z3.Not(z)) == z3.unsat:
+            r = True
+        elif self._check(z) == z3.unsat:
+            r = False
+        else:
+            r = None
+        self._truth_cache[k] = (z, r)
+        return r
+
     def implied(self, z):
         """True iff z follows from assumptions+path (no forking)."""
         if isinstance(z, bool):
@@ -890,6 +939,9 @@ class Ctx:
         if z3.is_false(z):
             return False
         return self._check(z3.Not(z)) == z3.unsat
+
+    def feasible_scoped(self):
+        return self._check() != z3.unsat
 
     def feasible(self):
         return self.solver.check() != z3.unsat
@@ -920,7 +972,7 @@ class Ctx:
             ob = Obligation(name, "discharged", "z3-simplify", (time.time() - t0) * 1e3, path, tag=tag)
             self.session.record(ob)
             return True
-        hyps = [zbool(h) for h in extra_hyps]
+        hyps = list(self.scoped) + [zbool(h) for h in extra_hyps]
         status, backend, model, detail = self._discharge(g, hyps)
         ms = (time.time() - t0) * 1e3
         ob = Obligation(name, status, backend, ms, path, model=model, detail=detail, tag=tag)
@@ -971,6 +1023,12 @@ class Ctx:
                         break
                 if side_ok:
                     return "discharged", "ring-normal-form" + ("+z3(divisors!=0)" if divisors else ""), None, ""
+        # case split on if-then-else conditions (index position classes), ring normal form at the leaves
+        if _has_ite(g):
+            self._split_budget = ITE_SPLIT_LEAVES
+            st = self._split(g, hyps, 0)
+            if st is not None:
+                return st
         r, model, smt2 = self._z3_check(hyps, ng, Z3_TIMEOUT_MS)
         if r == z3.unsat:
             return "discharged", "z3", None, ""
@@ -982,6 +1040,143 @@ class Ctx:
         if r2 == "sat":
             return "refuted", "cvc5", None, "cvc5: sat (no model extracted)"
         return "unknown", "z3+ringnf+cvc5", None, "unknown/timeout"
+
+    def _merge_equal_atoms(self, g, hyps):
+        """Rewrite uninterpreted-function applications whose arguments are provably equal under the
+        hypotheses to one representative (e.g. E(.., i+1-N, ..) and E(.., 0, ..) when i == N-1), so
+        that the ring normal form sees them as the same atom."""
+        apps = {}
+        seen = set()
+        stack = [g]
+        while stack:
+            t = stack.pop()
+            k = t.get_id()
+            if k in seen:
+                continue
+            seen.add(k)
+            if z3.is_app(t):
+                if t.decl().kind() == z3.Z3_OP_UNINTERPRETED and t.num_args() > 0:
+                    apps.setdefault(t.decl().get_id(), []).append(t)
+                stack.extend(t.children())
+        subs = []
+        for group in apps.values():
+            if len(group) < 2:
+                continue
+            reps = []
+            for t in group:
+                merged = False
+                for r in reps:
+                    conj = []
+                    differ = False
+                    for x, y in zip(t.children(), r.children()):
+                        if x.get_id() == y.get_id():
+                            continue
+                        if not z3.is_arith(x):
+                            differ = True
+                            break
+                        d = _simp(x - y)
+                        if z3.is_int_value(d) or z3.is_rational_value(d):
+                            if not (z3.is_int_value(d) and d.as_long() == 0):
+                                differ = True
+                                break
+                            continue
+                        conj.append(x == y)
+                    if differ:
+                        continue
+                    if conj:
+                        rr, _, _ = self._z3_check(hyps, z3.Not(z3.And(*conj)), Z3_FAST_MS)
+                        if rr != z3.unsat:
+                            continue
+                    subs.append((t, r))
+                    merged = True
+                    break
+                if not merged:
+                    reps.append(t)
+        if not subs:
+            return g
+        return _simp(z3.substitute(g, *subs))
+
+    def _ringnf_leaf(self, g, hyps):
+        from . import ringnf
+
+        eqs = ringnf.split_equalities(g)
+        if not eqs:
+            return False
+        if not all(ringnf.identity(a, b)[0] for a, b in eqs):
+            g2 = self._merge_equal_atoms(g, hyps)
+            if z3.is_true(g2):
+                return True
+            eqs = ringnf.split_equalities(g2)
+            if not eqs:
+                return False
+            if not all(ringnf.identity(a, b)[0] for a, b in eqs):
+                # atoms forced to zero by the hypotheses (wall conditions etc.)
+                subs = []
+                for a, b in eqs:
+                    for t in ringnf.residual_atoms(a, b):
+                        if z3.is_app(t) and t.decl().kind() == z3.Z3_OP_UNINTERPRETED and z3.is_arith(t):
+                            rr, _, _ = self._z3_check(hyps, t != 0, Z3_FAST_MS)
+                            if rr == z3.unsat:
+                                subs.append((t, z3.RealVal(0) if z3.is_real(t) else z3.IntVal(0)))
+                if subs:
+                    g3 = _simp(z3.substitute(g2, *subs))
+                    if z3.is_true(g3):
+                        return True
+                    eqs = ringnf.split_equalities(g3)
+                    if not eqs:
+                        return False
+        divisors = {}
+        for a, b in eqs:
+            holds, divs = ringnf.identity(a, b)
+            if not holds:
+                if os.environ.get("VERIF_DEBUG_RINGNF"):
+                    ringnf.debug_residual(a, b, hyps)
+                return False
+            for d in divs:
+                divisors[d.get_id()] = d
+        for d in divisors.values():
+            rr, _, _ = self._z3_check(hyps, d == 0, Z3_TIMEOUT_MS)
+            if rr != z3.unsat:
+                return False
+        return True
+
+    def _split(self, g, hyps, depth):
+        """-> (status, backend, model, detail) or None (give up: caller falls back to plain z3)"""
+        g = _simp(g)
+        if z3.is_true(g):
+            return "discharged", "ite-split+simplify", None, ""
+        conds = _ite_conditions(g, 1)
+        if not conds:
+            self._split_budget -= 1
+            if self._split_budget < 0:
+                return None
+            if self._ringnf_leaf(g, hyps):
+                return "discharged", "ite-split+ring-normal-form", None, ""
+            r, model, _ = self._z3_check(hyps, z3.Not(g), Z3_TIMEOUT_MS)
+            if r == z3.unsat:
+                return "discharged", "ite-split+z3", None, ""
+            if r == z3.sat:
+                return "refuted", "ite-split+z3", model, ""
+            if os.environ.get("VERIF_DEBUG_RINGNF"):
+                print("SPLIT: leaf undecided at depth", depth, "goal size", len(str(g)))
+            return None
+        if depth > ITE_SPLIT_DEPTH:
+            return None
+        c0 = conds[0]
+        backend = "ite-split+simplify"
+        for val, hc in ((True, c0), (False, z3.Not(c0))):
+            feas, _, _ = self._z3_check(hyps + [hc], z3.BoolVal(True), Z3_FAST_MS)
+            if feas == z3.unsat:
+                continue
+            g2 = z3.substitute(g, (c0, z3.BoolVal(val)))
+            st = self._split(g2, hyps + [hc], depth + 1)
+            if st is None:
+                return None
+            if st[0] != "discharged":
+                return st
+            if len(st[1]) > len(backend):
+                backend = st[1]
+        return "discharged", backend, None, ""
 
     def _model(self, extra_hyps=()):
         self.solver.push()
@@ -1000,6 +1195,30 @@ class Ctx:
         """Vacuity guard: the current point must be reachable (assumptions satisfiable)."""
         r = self.solver.check()
         self.session.record_cover(name, r != z3.unsat)
+
+
+def _has_ite(e):
+    return bool(_ite_conditions(e, 1))
+
+
+def _ite_conditions(e, limit):
+    """conditions of if-then-else subterms (outermost first), at most `limit`"""
+    seen = set()
+    out = []
+    stack = [e]
+    while stack and len(out) < limit:
+        t = stack.pop()
+        k = t.get_id()
+        if k in seen:
+            continue
+        seen.add(k)
+        if z3.is_app(t):
+            if t.decl().kind() == z3.Z3_OP_ITE:
+                out.append(t.arg(0))
+                if len(out) >= limit:
+                    break
+            stack.extend(t.children())
+    return out
 
 
 def run_cvc5(smt2_text):
